@@ -15,12 +15,10 @@ def route(case):
         return "ha_race"
     return "ha"
 
-# repaired = all five repairs (the theorems with fix_* hypotheses hold for it).  /repo HEAD has the first three
-# (hb, if, fc: `fixed:` in KNOWN_FINDINGS.txt, so their defective variants are NOT listed: a regression is a
-# VIOLATION).  def_sa = HEAD: a heartbeat handled between the two critical sections of handlePeerLost leaves
-# STANDBY_ALONE with a known peer, which no heartbeat leaves again (recorded finding).  fix_ia cannot be observed
-# by any forceable schedule, so def_ia is not a separate variant.
-VARIANTS = ["repaired", "def_sa"]
+# One model: /repo HEAD (all five C10 fixes are committed: `fixed:` lines in KNOWN_FINDINGS.txt).  The original
+# behaviours survive only as flags of the Coq model for the historical _refuted theorems; a regression to any of them
+# is a VIOLATION.
+VARIANTS = ["repaired"]
 MODEL_NEEDS_IMPL = False
 
 RULE = ("case = configuration of both nodes (node id as a Go string, priority, preempt, decrement, #tracked interfaces) + "
@@ -240,27 +238,12 @@ def classify(case, impl, model):
         for j in range(min(len(x), len(y))):
             if core(x[j]) != core(y[j]):
                 opj = ops[j - 1] if 0 < j <= len(ops) else "<init>"
-                return "P", ("peer view differs from step %d (%s); after step %d (%s) the pair is %s but the repaired "
+                return "P", ("peer view differs from step %d (%s); after step %d (%s) the pair is %s but the HEAD "
                              "model (for which the C10 theorems hold) says %s" % (i, op, j, opj, x[j], y[j]))
         return "G", ("after step %d (%s) only the recorded peer view (peer priority/state, peer-known flag) differs: "
                      "%s vs model %s" % (i, op, xi, yi))
-    return "P", ("after step %d (%s) the pair is %s but the repaired model (for which the C10 theorems hold) says %s"
+    return "P", ("after step %d (%s) the pair is %s but the model of HEAD (for which the C10 theorems hold) says %s"
                  % (i, op, xi, yi))
-
-
-def signature(case, impl, models):
-    """vlib calls this only when the whole implementation line equals a non-repaired variant (def_sa = HEAD).
-    Specific to the recorded schedule: a handlePeerLost parked between its two critical sections (pL) and, at the
-    first divergence, a node that the implementation shows in STANDBY_ALONE with a known peer."""
-    if impl != models.get("def_sa"):
-        return None
-    d = _first_diff(impl, models["repaired"])
-    if d is None or not any(o.startswith("pL") for o in case.split(" ")[10:]):
-        return None
-    nodes = d[1].split("|")[:2]
-    if any(n.split(",")[0] == "SA" and n.split(",")[4] == "1" for n in nodes if n.count(",") == 6):
-        return "standby-alone-known-peer-after-racing-peer-loss"
-    return None
 
 
 def shrink(case):
